@@ -171,3 +171,409 @@ Proof.
   - destruct (split_first f l) as [[[b' h'] a']|]; [|discriminate].
     inversion H; subst. destruct (IH _ eq_refl) as [H1 H2]. subst. auto.
 Qed.
+
+(** ** The simple unary / binary rules *)
+Lemma reduce_minus_to_sum_with_negation_sound :
+  forall e e' : expr R, reduce_minus_to_sum_with_negation e = Some e' -> refines e e'.
+Proof.
+  intros e e' H. destruct e; try discriminate. inversion H; subst; clear H.
+  intros [Hw1 Hw2]. simpl. split; [tauto|]. split.
+  - rewrite app_nil_r. apply incl_refl.
+  - intros rho [H1 H2]. split; [tauto|lra].
+Qed.
+
+Lemma reduce_negation_of_negation_sound :
+  forall e e' : expr R, reduce_negation_of_negation e = Some e' -> refines e e'.
+Proof.
+  intros e e' H. destruct e; try discriminate. destruct e; try discriminate.
+  inversion H; subst; clear H.
+  intros Hw. simpl in *. split; [assumption|]. split; [apply incl_refl|].
+  intros rho Hd. split; [assumption|lra].
+Qed.
+
+Lemma RA_neg_sum_vars (l : list (expr R)) : flat_map vars (map Neg l) = flat_map vars l.
+Proof. induction l as [|a l IH]; simpl; congruence. Qed.
+
+Lemma reduce_negation_of_sum_sound :
+  forall e e' : expr R, reduce_negation_of_sum e = Some e' -> refines e e'.
+Proof.
+  intros e e' H. destruct e; try discriminate. destruct e; try discriminate.
+  inversion H; subst; clear H.
+  intros Hw. change (wfR (Add l)) in Hw. rewrite RA_wf_Add in Hw.
+  split; [|split].
+  - rewrite RA_wf_Add. induction Hw; simpl; constructor; auto.
+  - change (incl (flat_map vars (map Neg l)) (flat_map vars l)).
+    rewrite RA_neg_sum_vars. apply incl_refl.
+  - intros rho Hd. change (InDomain rho (Add l)) in Hd. rewrite RA_dom_Add in Hd.
+    rewrite RA_dom_Add. change (denote rho (Neg (Add l))) with (- denote rho (Add l)).
+    rewrite !RA_den_Add. clear Hw. induction Hd as [|a l Ha Hl IH]; simpl.
+    + split; [constructor|lra].
+    + destruct IH as [IH1 IH2]. split; [constructor; auto|]. rewrite IH2. lra.
+Qed.
+
+Lemma reduce_divide_to_multiplying_with_reciprocal_sound :
+  forall e e' : expr R, reduce_divide_to_multiplying_with_reciprocal e = Some e' -> refines e e'.
+Proof.
+  intros e e' H. destruct e; try discriminate. inversion H; subst; clear H.
+  intros [Hw1 Hw2]. simpl. split; [tauto|]. split.
+  - rewrite app_nil_r. apply incl_refl.
+  - intros rho (H1 & H2 & H3). split; [tauto|]. unfold Rdiv. ring.
+Qed.
+
+Lemma reduce_reciprocal_of_reciprocal_sound :
+  forall e e' : expr R, reduce_reciprocal_of_reciprocal e = Some e' -> refines e e'.
+Proof.
+  intros e e' H. destruct e; try discriminate. destruct e; try discriminate.
+  inversion H; subst; clear H.
+  intros Hw. simpl in *. split; [assumption|]. split; [apply incl_refl|].
+  intros rho [[Hd Hn] Hn']. split; [assumption|]. symmetry. apply Rinv_inv.
+Qed.
+
+Lemma reduce_reciprocal_of_negation_sound :
+  forall e e' : expr R, reduce_reciprocal_of_negation e = Some e' -> refines e e'.
+Proof.
+  intros e e' H. destruct e; try discriminate. destruct e; try discriminate.
+  inversion H; subst; clear H.
+  intros Hw. simpl in *. split; [assumption|]. split; [apply incl_refl|].
+  intros rho [Hd Hn]. assert (Hn' : denote rho e <> 0) by (intro Hz; apply Hn; rewrite Hz; lra).
+  split; [auto|]. field. assumption.
+Qed.
+
+Lemma RA_recip_prod_vars (l : list (expr R)) : flat_map vars (map Recip l) = flat_map vars l.
+Proof. induction l as [|a l IH]; simpl; congruence. Qed.
+
+Lemma reduce_reciprocal_of_product_sound :
+  forall e e' : expr R, reduce_reciprocal_of_product e = Some e' -> refines e e'.
+Proof.
+  intros e e' H. destruct e; try discriminate. destruct e; try discriminate.
+  inversion H; subst; clear H.
+  intros Hw. change (wfR (Mul l)) in Hw. rewrite RA_wf_Mul in Hw.
+  split; [|split].
+  - rewrite RA_wf_Mul. induction Hw; simpl; constructor; auto.
+  - change (incl (flat_map vars (map Recip l)) (flat_map vars l)).
+    rewrite RA_recip_prod_vars. apply incl_refl.
+  - intros rho Hd. change (InDomain rho (Mul l) /\ denote rho (Mul l) <> 0) in Hd.
+    destruct Hd as [Hd Hn]. rewrite RA_dom_Mul in Hd.
+    rewrite RA_dom_Mul. change (denote rho (Recip (Mul l))) with (/ denote rho (Mul l)).
+    rewrite RA_den_Mul in Hn. rewrite !RA_den_Mul. clear Hw.
+    induction Hd as [|a l Ha Hl IH]; simpl in *.
+    + split; [constructor|]. symmetry; apply Rinv_1.
+    + assert (Hna : denote rho a <> 0) by (intro Hz; apply Hn; rewrite Hz; ring).
+      assert (Hnl : RA_prodR (map (denote rho) l) <> 0) by (intro Hz; apply Hn; rewrite Hz; ring).
+      destruct (IH Hnl) as [IH1 IH2]. split; [constructor; [simpl; auto|assumption]|].
+      rewrite IH2. symmetry. apply Rinv_mult.
+Qed.
+
+Lemma reduce_cosine_of_negation_sound :
+  forall e e' : expr R, reduce_cosine_of_negation e = Some e' -> refines e e'.
+Proof.
+  intros e e' H. destruct e; try discriminate. destruct e; try discriminate.
+  inversion H; subst; clear H.
+  intros Hw. simpl in *. split; [assumption|]. split; [apply incl_refl|].
+  intros rho Hd. split; [assumption|]. symmetry. apply cos_neg.
+Qed.
+
+Lemma reduce_sine_of_negation_sound :
+  forall e e' : expr R, reduce_sine_of_negation e = Some e' -> refines e e'.
+Proof.
+  intros e e' H. destruct e; try discriminate. destruct e; try discriminate.
+  inversion H; subst; clear H.
+  intros Hw. simpl in *. split; [assumption|]. split; [apply incl_refl|].
+  intros rho Hd. split; [assumption|]. symmetry. apply sin_neg.
+Qed.
+
+(** ** Flattening *)
+Lemma RA_nary_unnest b l : refines (RA_nary b [RA_nary b l]) (RA_nary b l).
+Proof.
+  intro Hw. apply RA_wf_nary in Hw. inversion Hw as [|x y Hx Hy]; subst. clear Hw Hy.
+  split; [assumption|]. split.
+  - rewrite !RA_vars_nary. simpl. rewrite RA_vars_nary, app_nil_r. apply incl_refl.
+  - intros rho Hd. apply RA_dom_nary in Hd. inversion Hd as [|x y Hx' Hy']; subst.
+    split; [assumption|]. rewrite !RA_den_nary. simpl. rewrite RA_den_nary.
+    destruct b; simpl; ring.
+Qed.
+
+Lemma RA_nary_flatten b before nested after :
+  refines (RA_nary b (before ++ RA_nary b nested :: after)) (RA_nary b (before ++ nested ++ after)).
+Proof.
+  apply RA_nary_app; [apply RA_refines_refl|].
+  change (RA_nary b nested :: after) with ([RA_nary b nested] ++ after).
+  apply RA_nary_app; [|apply RA_refines_refl].
+  apply RA_nary_unnest.
+Qed.
+
+Lemma reduce_by_flattening_nested_sums_sound :
+  forall e e' : expr R, reduce_by_flattening_nested_sums e = Some e' -> refines e e'.
+Proof.
+  intros e e' H. destruct e; try discriminate. simpl in H.
+  destruct (split_first is_Add l) as [[[b h] a]|] eqn:E; [|discriminate].
+  apply RA_split_first in E. destruct E as [-> Hh].
+  destruct h; try discriminate. inversion H; subst; clear H.
+  match goal with |- refines _ (Add (_ ++ ?n ++ _)) => exact (RA_nary_flatten true b n a) end.
+Qed.
+
+Lemma reduce_by_flattening_nested_products_sound :
+  forall e e' : expr R, reduce_by_flattening_nested_products e = Some e' -> refines e e'.
+Proof.
+  intros e e' H. destruct e; try discriminate. simpl in H.
+  destruct (split_first is_Mul l) as [[[b h] a]|] eqn:E; [|discriminate].
+  apply RA_split_first in E. destruct E as [-> Hh].
+  destruct h; try discriminate. inversion H; subst; clear H.
+  match goal with |- refines _ (Mul (_ ++ ?n ++ _)) => exact (RA_nary_flatten false b n a) end.
+Qed.
+
+(** ** Eliminating neutral constants, multiplying by zero, consolidating constants *)
+Lemma RA_is_const_eq c e : is_const_eq RInst c e = true -> e = Const c.
+Proof.
+  destruct e; simpl; try discriminate. intro H. apply Reqb_true in H. congruence.
+Qed.
+
+Lemma RA_nary_drop_units (b : bool) (c : R) l :
+  c = (if b then 0 else 1) ->
+  refines (RA_nary b (filter (is_const_eq RInst c) l)) (RA_nary b []).
+Proof.
+  intro Hc. apply RA_refines_nary. intros _. split; [constructor|].
+  split; [apply incl_nil_l|]. intros rho _. split; [constructor|].
+  induction l as [|a l IH]; [reflexivity|]. simpl filter.
+  destruct (is_const_eq RInst c a) eqn:E; [|assumption].
+  apply RA_is_const_eq in E. subst a. destruct b; simpl in *; rewrite <- IH; subst c; lra.
+Qed.
+
+Lemma reduce_sum_by_eliminating_zeros_sound :
+  forall e e' : expr R, reduce_sum_by_eliminating_zeros RInst e = Some e' -> refines e e'.
+Proof.
+  intros e e' H. destruct e; try discriminate. unfold reduce_sum_by_eliminating_zeros in H.
+  match type of H with (if ?c then _ else _) = _ => destruct c end; [discriminate|].
+  inversion H; subst; clear H.
+  apply (RA_nary_parts true l _ (filter (fun x => negb (is_const_eq RInst 0 x)) l)
+           (filter (is_const_eq RInst 0) l) []).
+  - apply RA_filter_perm.
+  - rewrite app_nil_r. apply Permutation_refl.
+  - apply RA_nary_drop_units. reflexivity.
+Qed.
+
+Lemma reduce_product_by_eliminating_ones_sound :
+  forall e e' : expr R, reduce_product_by_eliminating_ones RInst e = Some e' -> refines e e'.
+Proof.
+  intros e e' H. destruct e; try discriminate. unfold reduce_product_by_eliminating_ones in H.
+  match type of H with (if ?c then _ else _) = _ => destruct c end; [discriminate|].
+  inversion H; subst; clear H.
+  apply (RA_nary_parts false l _ (filter (fun x => negb (is_const_eq RInst 1 x)) l)
+           (filter (is_const_eq RInst 1) l) []).
+  - apply RA_filter_perm.
+  - rewrite app_nil_r. apply Permutation_refl.
+  - apply RA_nary_drop_units. reflexivity.
+Qed.
+
+Lemma RA_prod_zero l : In 0 l -> RA_prodR l = 0.
+Proof.
+  induction l as [|a l IH]; simpl; [tauto|]. intros [H|H].
+  - subst. ring.
+  - rewrite IH by assumption. ring.
+Qed.
+
+Lemma reduce_product_when_multiplying_by_zero_sound :
+  forall e e' : expr R, reduce_product_when_multiplying_by_zero RInst e = Some e' -> refines e e'.
+Proof.
+  intros e e' H. destruct e; try discriminate.
+  unfold reduce_product_when_multiplying_by_zero in H.
+  destruct (existsb (is_const_eq RInst (n0 RInst)) l) eqn:E; [|discriminate].
+  inversion H; subst; clear H.
+  apply existsb_exists in E. destruct E as [x [Hin Hx]]. apply RA_is_const_eq in Hx. subst x.
+  intros Hw. split; [exact I|]. split; [apply incl_nil_l|].
+  intros rho Hd. split; [exact I|]. rewrite RA_den_Mul. symmetry.
+  apply RA_prod_zero. exact (in_map (denote rho) _ _ Hin).
+Qed.
+
+Lemma RA_const_values rho b l :
+  RA_opR b (map (denote rho) (filter is_Const l)) = RA_opR b (const_values (filter is_Const l)).
+Proof.
+  unfold const_values. induction l as [|a l IH]; [reflexivity|].
+  destruct a; simpl; auto. destruct b; simpl in *; rewrite IH; reflexivity.
+Qed.
+
+Lemma RA_mul_loop p vs : mul_loop RInst p vs = p * RA_prodR vs.
+Proof.
+  revert p. induction vs as [|a r IH]; intro p; simpl; [ring|].
+  destruct (Reqb a 0) eqn:E.
+  - apply Reqb_true in E. subst a. ring.
+  - rewrite IH. ring.
+Qed.
+
+Lemma RA_mf_multiply vs : mf_multiply RInst vs = RA_prodR vs.
+Proof. unfold mf_multiply. rewrite RA_mul_loop. simpl. ring. Qed.
+
+Lemma RA_mf_add vs : mf_add RInst vs = RA_sumR vs.
+Proof. reflexivity. Qed.
+
+Lemma RA_nary_consts b l :
+  refines (RA_nary b (filter is_Const l))
+          (RA_nary b [Const (RA_opR b (const_values (filter is_Const l)))]).
+Proof.
+  apply RA_refines_nary. intros _. split; [constructor; [exact I|constructor]|].
+  split; [apply incl_nil_l|]. intros rho _. split; [constructor; [exact I|constructor]|].
+  rewrite RA_const_values. destruct b; simpl; ring.
+Qed.
+
+Lemma reduce_sum_by_consolidating_constants_sound :
+  forall e e' : expr R, reduce_sum_by_consolidating_constants RInst e = Some e' -> refines e e'.
+Proof.
+  intros e e' H. destruct e; try discriminate.
+  unfold reduce_sum_by_consolidating_constants, partition_by in H.
+  match type of H with (if ?c then _ else _) = _ => destruct c end; [discriminate|].
+  inversion H; subst; clear H.
+  apply (RA_nary_parts true l _ (filter (fun x => negb (is_Const x)) l) (filter is_Const l)
+           [Const (RA_sumR (const_values (filter is_Const l)))]).
+  - apply RA_filter_perm.
+  - apply Permutation_refl.
+  - exact (RA_nary_consts true l).
+Qed.
+
+Lemma reduce_product_by_consolidating_constants_sound :
+  forall e e' : expr R, reduce_product_by_consolidating_constants RInst e = Some e' -> refines e e'.
+Proof.
+  intros e e' H. destruct e; try discriminate.
+  unfold reduce_product_by_consolidating_constants, partition_by in H.
+  match type of H with (if ?c then _ else _) = _ => destruct c end; [discriminate|].
+  rewrite RA_mf_multiply in H. inversion H; subst; clear H.
+  apply (RA_nary_parts false l _ (filter (fun x => negb (is_Const x)) l) (filter is_Const l)
+           [Const (RA_prodR (const_values (filter is_Const l)))]).
+  - apply RA_filter_perm.
+  - apply Permutation_refl.
+  - exact (RA_nary_consts false l).
+Qed.
+
+(** ** Eliminating negations in a product *)
+Lemma RA_filter_Neg (l : list (expr R)) :
+  filter is_Neg l = map Neg (map inner_of (filter is_Neg l)).
+Proof.
+  induction l as [|a l IH]; [reflexivity|]. destruct a; simpl; auto. congruence.
+Qed.
+
+Lemma RA_pow_m1 n : (-1) ^ n = if Nat.even n then 1 else -1.
+Proof.
+  induction n as [|n IH]; [reflexivity|].
+  rewrite Nat.even_succ, <- Nat.negb_even. simpl pow. rewrite IH.
+  destruct (Nat.even n); simpl; lra.
+Qed.
+
+Lemma RA_prod_negs rho (us : list (expr R)) :
+  RA_prodR (map (denote rho) (map Neg us)) =
+  (-1) ^ (List.length us) * RA_prodR (map (denote rho) us).
+Proof.
+  induction us as [|a us IH]; simpl; [ring|]. simpl in IH. rewrite IH. ring.
+Qed.
+
+Lemma RA_nary_negs (us : list (expr R)) :
+  refines (RA_nary false (map Neg us))
+          (RA_nary false (us ++ (if Nat.even (List.length us) then [] else [Const (-1)]))).
+Proof.
+  apply RA_refines_nary. intro Hw. apply (proj1 (Forall_map _ _ _)) in Hw.
+  split; [|split].
+  - apply Forall_app. split; [exact Hw|]. destruct (Nat.even _); repeat constructor.
+  - rewrite flat_map_app, RA_neg_sum_vars.
+    destruct (Nat.even _); simpl; rewrite app_nil_r; apply incl_refl.
+  - intros rho Hd. apply (proj1 (Forall_map _ _ _)) in Hd. split.
+    + apply Forall_app. split; [exact Hd|]. destruct (Nat.even _); repeat constructor.
+    + unfold RA_opR. rewrite map_app, RA_prodR_app, RA_prod_negs, RA_pow_m1.
+      destruct (Nat.even _); simpl; ring.
+Qed.
+
+Lemma reduce_product_by_eliminating_negations_sound :
+  forall e e' : expr R, reduce_product_by_eliminating_negations RInst e = Some e' -> refines e e'.
+Proof.
+  intros e e' H. destruct e; try discriminate.
+  unfold reduce_product_by_eliminating_negations, partition_by in H.
+  assert (H' : Some (Mul (filter (fun x => negb (is_Neg x)) l ++ map inner_of (filter is_Neg l) ++
+                  (if Nat.even (List.length (map inner_of (filter is_Neg l)))
+                   then [] else [Const (-1)]))) = Some e').
+  { rewrite map_length. remember (filter is_Neg l) as negs eqn:En.
+    destruct negs as [|ng negs']; [discriminate|].
+    destruct (Nat.even (List.length (ng :: negs'))); [rewrite app_nil_r|]; exact H. }
+  clear H. inversion H'; subst; clear H'.
+  apply (RA_nary_parts false l _ (filter (fun x => negb (is_Neg x)) l) (filter is_Neg l)
+           (map inner_of (filter is_Neg l) ++
+            (if Nat.even (List.length (map inner_of (filter is_Neg l))) then [] else [Const (-1)]))).
+  - apply RA_filter_perm.
+  - apply Permutation_refl.
+  - rewrite RA_filter_Neg at 1. apply RA_nary_negs.
+Qed.
+
+(** ** [group_by_key] *)
+Section RA_Group.
+  Context {K V : Type} (keqb : K -> K -> bool) (key : V -> K).
+  Hypothesis keqb_refl : forall k, keqb k k = true.
+
+  Definition RA_ginv (g : list (K * list V)) : Prop :=
+    Forall (fun kv => snd kv <> [] /\ Forall (fun v => keqb (key v) (fst kv) = true) (snd kv)) g.
+
+  Lemma RA_group_insert_perm k v g :
+    Permutation (flat_map snd (group_insert keqb k v g)) (flat_map snd g ++ [v]).
+  Proof.
+    induction g as [|[k' vs] g IH]; simpl.
+    - apply Permutation_refl.
+    - destruct (keqb k k'); simpl.
+      + rewrite <- !app_assoc. apply Permutation_app_head. apply Permutation_app_comm.
+      + rewrite <- app_assoc. apply Permutation_app_head. exact IH.
+  Qed.
+
+  Lemma RA_group_insert_inv v g : RA_ginv g -> RA_ginv (group_insert keqb (key v) v g).
+  Proof.
+    induction g as [|[k' vs] g IH]; intro H; simpl.
+    - constructor; [|constructor]. simpl. split; [discriminate|].
+      constructor; [apply keqb_refl|constructor].
+    - inversion H as [|x y [Hne Hall] Hy]; subst. simpl in Hne, Hall.
+      destruct (keqb (key v) k') eqn:E.
+      + constructor; [|assumption]. simpl. split.
+        * intro Hc. apply app_eq_nil in Hc. destruct Hc; discriminate.
+        * apply Forall_app; split; [assumption|]. constructor; [assumption|constructor].
+      + constructor; [split; assumption|]. apply IH; assumption.
+  Qed.
+
+  Lemma RA_group_fold l : forall g, RA_ginv g ->
+    RA_ginv (fold_left (fun g v => group_insert keqb (key v) v g) l g) /\
+    Permutation (flat_map snd (fold_left (fun g v => group_insert keqb (key v) v g) l g))
+                (flat_map snd g ++ l).
+  Proof.
+    induction l as [|v l IH]; intros g Hg; simpl.
+    - split; [assumption|]. rewrite app_nil_r. apply Permutation_refl.
+    - destruct (IH _ (RA_group_insert_inv v g Hg)) as [H1 H2]. split; [assumption|].
+      eapply Permutation_trans; [exact H2|].
+      change (v :: l) with ([v] ++ l). rewrite app_assoc.
+      apply Permutation_app_tail. apply RA_group_insert_perm.
+  Qed.
+
+  Lemma RA_group_by_key l :
+    RA_ginv (group_by_key keqb key l) /\ Permutation (flat_map snd (group_by_key keqb key l)) l.
+  Proof.
+    unfold group_by_key. destruct (RA_group_fold l [] (Forall_nil _)) as [H1 H2]. auto.
+  Qed.
+End RA_Group.
+
+(** the shape common to the four consolidation rules *)
+Lemma RA_consolidate {K} b (isX : expr R -> bool) (keqb : K -> K -> bool) (keyf : expr R -> K)
+      (mk : list (expr R) -> K -> expr R) l :
+  (forall k, keqb k k = true) ->
+  (forall k vs, vs <> [] -> Forall (fun v => isX v = true /\ keqb (keyf v) k = true) vs ->
+                refines (RA_nary b vs) (RA_nary b [mk (map inner_of vs) k])) ->
+  refines (RA_nary b l)
+          (RA_nary b (filter (fun x => negb (isX x)) l ++
+                      map (fun kv => mk (map inner_of (snd kv)) (fst kv))
+                          (group_by_key keqb keyf (filter isX l)))).
+Proof.
+  intros Hrefl Hgrp.
+  destruct (RA_group_by_key keqb keyf Hrefl (filter isX l)) as [Hinv Hperm].
+  eapply RA_nary_parts; [apply RA_filter_perm with (f := isX)|apply Permutation_refl|].
+  eapply RA_refines_trans; [apply RA_nary_perm; apply Permutation_sym; exact Hperm|].
+  apply (RA_nary_flat_map b snd (fun kv => mk (map inner_of (snd kv)) (fst kv))).
+  intros g Hg. unfold RA_ginv in Hinv. rewrite Forall_forall in Hinv.
+  destruct (Hinv g Hg) as [Hne Hall]. apply Hgrp; [assumption|].
+  rewrite Forall_forall in *. intros v Hv. split; [|apply Hall; assumption].
+  assert (Hin : In v (filter isX l)).
+  { eapply Permutation_in; [exact Hperm|]. apply in_flat_map. exists g; auto. }
+  apply filter_In in Hin. tauto.
+Qed.
+
+Lemma RA_flat_map_vars_map (f : expr R -> expr R) us :
+  (forall u, vars (f u) = vars u) -> flat_map vars (map f us) = flat_map vars us.
+Proof. intro H. induction us as [|a us IH]; simpl; [reflexivity|]. rewrite H, IH. reflexivity. Qed.
